@@ -413,3 +413,15 @@ def summarize(counters, extra, tier):
             '3x3: %s' % (_n_small(), _SMALL_SHAPES,
                          'all 19683' if tier == 'thorough' else
                          '%d sampled' % p['n33'])}
+
+
+def stress(ctx):
+    from vm.checks import _stress
+    _stress.stress_filter(ctx, ctx.rng('stress'))
+
+
+def san_indices(tier):
+    p = plan(tier)
+    base = p['small'] + p['n33']
+    k = 300 if tier == 'quick' else 4000
+    return list(range(0, 400, 7)) + list(range(base, base + k))
